@@ -514,7 +514,7 @@ class CallMixin:
                 continue
             se = post.assume(cond) if r.mode in ("iff", "only_if") else post
             se = se.note(f"{where}:raises {r.exc}")
-            for cl in c.ensures_exc.get(r.exc, []):
+            for cl in list(c.ensures_exc.get(r.exc, [])) + list(getattr(c, "ghost_ensures_exc", {}).get(r.exc, [])):
                 se = se.assume(self.spec_bool(SpecEnv(se, names, pre_st, dict(bound)), cl.expr))
             ex = VExc(self.exc_name(r.exc), [], f"{c.qualname} at {where}")
             if r.exc in ("Exception", "BaseException"):
